@@ -11,6 +11,7 @@ import (
 	"mime/multipart"
 	"net/http"
 	"net/url"
+	"os"
 	"strings"
 
 	"verif/internal/jv"
@@ -192,6 +193,9 @@ func Params(doc M, o Op) []M {
 var junkMethods = []string{"PROPFIND", "get", "", "GET ", "CONNECT", "G\tET", "ÜBER"}
 var hostileSegments = []string{"", "%zz", "a%2Fb", "a,b", ".a.b", ";x=1", ";x", "..", "a b", "é", "%00", "1e400", "-0", "a=b", strings.Repeat("9", 40)}
 var hostileQueries = []string{"%zz", "q", "q=", "q=1&q=2", "=", "&&&", "q[=1", "q]=1", "q[a]=1&q[a][b]=2", "d[a][0]=1&d[a][0][1]=2", "q[a][=1", "q=%ff", "q=a;b=c", "q[]=1", "q[0]=1&q[x]=2", "f[a]=1&f=2", "lim=1,2,,", "lim=1|2|", "q=" + strings.Repeat("[", 50)}
+
+// N = parameter name, P = one of its declared properties
+var hostileDeep = []string{"N[P][-1]=1", "N[P][-1]=1&N[P][1]=2", "N[P][1]=1", "N[P][3]=1&N[P][0]=2", "N[P][0]=1&N[P][0]=2", "N[P][00]=1&N[P][0]=2", "N[P][0][0]=1", "N[P][0][x]=1&N[P][1]=2", "N[P][x]=1", "N[P][]=1", "N[P]=1&N[P][0]=2", "N[P][+1]=1", "N[P][1e1]=1", "N[P][0x1]=1", "N[P][-0]=1", "N[P][9223372036854775808]=1", "N[-1]=1", "N[P][0][-1]=1", "N[P][a][-1]=1&N[P][a][0]=1", "N[P]", "N[P][", "N[P]]=1", "N[][P]=1", "N[P][0]=&N[P][1]"}
 var hostileCT = []string{"", "application/json;;;", "multipart/form-data", "multipart/form-data; boundary=", "multipart/form-data; boundary=x", "text/plain; charset=\"", "/", "a/b/c", "application/json; charset=utf-8", "APPLICATION/JSON", "application/x-www-form-urlencoded; charset=x", "*/*", "application/*"}
 
 // GenValue draws a value for a (raw, possibly referencing) schema.
@@ -292,6 +296,23 @@ func GenRequest(t *rapid.T, doc M, hostile bool) Req {
 			}
 			path = strings.ReplaceAll(path, "{"+name+"}", seg)
 		case "query":
+			if style == "deepObject" && chance(4, "hostdeep") {
+				// hostile members of a deepObject parameter, spelled with the names its schema declares
+				ps := InlineSchema(doc, p["schema"], 3)
+				props, _ := ps["properties"].(M)
+				pn := "a"
+				if ks := jv.Keys(props); len(ks) > 0 {
+					pn = rapid.SampledFrom(ks).Draw(t, "deepprop")
+				}
+				forms := hostileDeep
+				if os.Getenv("C10_BIGINDEX") != "" {
+					// the trigger of the recorded finding "work proportional to an array index"
+					forms = append(append([]string{}, forms...), "N[P][2000000]=1", "N[P][0]=1&N[P][1500000]=2")
+				}
+				form := rapid.SampledFrom(forms).Draw(t, "hdeep")
+				query = append(query, strings.ReplaceAll(strings.ReplaceAll(form, "N", url.QueryEscape(name)), "P", url.QueryEscape(pn)))
+				continue
+			}
 			if chance(6, "hostq") {
 				hq := rapid.SampledFrom(hostileQueries).Draw(t, "hq")
 				query = append(query, strings.ReplaceAll(strings.ReplaceAll(strings.ReplaceAll(hq, "q", name), "d[", name+"["), "lim", name))
